@@ -254,7 +254,7 @@ fn check_scene(ctx: &Ctx, m: &Model, case: &dyn Fn() -> Value, acc: &mut Acc, cl
 
 pub fn run(ctx: &Ctx) -> i32 {
     let zones: Vec<&str> = match ctx.tier {
-        Tier::Quick => vec!["D3", "A3c", "E1", "Alfa1c"],
+        Tier::Quick => vec!["D3", "B3", "A3c", "Alfa3c", "E1", "Alfa1c", "C4", "D2c"],
         Tier::Thorough => ALL_ZONES.to_vec(),
     };
     let g = Grid::new(&[("zone", zones.len()), ("azimuth", 8), ("tilt", 3), ("setback", 2), ("obstacle", OBST.len()), ("fillers", FILLERS.len()), ("positions{all,window none,wall none}", 3)]);
